@@ -1,54 +1,25 @@
-(* C06: representative schemas, transcribed by hand from the derive attributes of
-   pallas-primitives (lib.rs, alonzo/model.rs, conway/model.rs) and of the test structs the
-   harness derives with the same minicbor-derive; [wf_schema] of each is decided by
-   vm_compute in Props.v on every run. Hash<28>/Hash<32>/Bytes are byte strings. *)
-From PV Require Import Lib.Base C06.Model C06.MapStruct.
+(* C06: hand-written schemas of the four test types that the harness derives itself with the
+   same minicbor-derive (they exercise every modelled derive shape in every optional-field
+   combination). The schemas of the pallas types are GENERATED: Generated/Schemas.v. *)
+From Coq Require String.
+From PV Require Import Lib.Base C06.Model.
 Open Scope Z_scope.
+Import Coq.Strings.String.StringSyntax.
+Local Open Scope string_scope.
 
-(* lib.rs ExUnits { #[n(0)] mem: u64, #[n(1)] steps: u64 } *)
-Definition s_ex_units : schema := SArray [(false, SUInt 64); (false, SUInt 64)].
-(* alonzo VKeyWitness { #[n(0)] vkey: Bytes, #[n(1)] signature: Bytes } *)
-Definition s_vkey_witness : schema := SArray [(false, SBytes); (false, SBytes)].
-(* alonzo BootstrapWitness: four byte strings *)
-Definition s_bootstrap_witness : schema := SArray [(false, SBytes); (false, SBytes); (false, SBytes); (false, SBytes)].
-(* conway RedeemerTag #[cbor(index_only)] 0..5; RedeemersKey { tag, index: u32 } *)
-Definition s_redeemer_tag : schema := SIndexOnly [0; 1; 2; 3; 4; 5].
-Definition s_redeemers_key : schema := SArray [(false, s_redeemer_tag); (false, SUInt 32)].
-(* conway Language #[cbor(index_only)] *)
-Definition s_language : schema := SIndexOnly [0; 1; 2].
-(* lib.rs StakeCredential #[cbor(flat)]: 1 ScriptHash(h), 0 AddrKeyhash(h) *)
-Definition s_stake_credential : schema := SFlat [(1, [(false, SBytes)]); (0, [(false, SBytes)])].
-(* conway DRep #[cbor(flat)]: 0 Key(h), 1 Script(h), 2 Abstain, 3 NoConfidence *)
-Definition s_drep : schema := SFlat [(0, [(false, SBytes)]); (1, [(false, SBytes)]); (2, []); (3, [])].
-(* conway Certificate #[cbor(flat)], the arms whose fields are modelled types *)
-Definition s_certificate_lite : schema :=
-  SFlat [(0, [(false, s_stake_credential)]); (1, [(false, s_stake_credential)]);
-         (2, [(false, s_stake_credential); (false, SBytes)]);
-         (7, [(false, s_stake_credential); (false, SUInt 64)]);
-         (8, [(false, s_stake_credential); (false, SUInt 64)]);
-         (9, [(false, s_stake_credential); (false, s_drep)]);
-         (17, [(false, s_stake_credential); (false, SUInt 64)])].
-(* harness test struct OptTail { #[n(0)] a: u64, #[n(1)] b: Option<u32>, #[n(2)] c: Option<Bytes>,
-                                 #[n(3)] d: Option<bool>, #[n(4)] e: Option<Vec<u16>> } *)
+(* struct OptTail { #[n(0)] a: u64, #[n(1)] b: Option<u32>, #[n(2)] c: Option<Bytes>,
+                    #[n(3)] d: Option<bool>, #[n(4)] e: Option<Vec<u16>> } *)
 Definition s_opt_tail : schema :=
-  SArray [(false, SUInt 64); (true, SUInt 32); (true, SBytes); (true, SBool); (true, SVec (SUInt 16))].
-(* harness test enum FlatOpt #[cbor(flat)]: 0 A(u8, Option<i64>), 3 B, 5 C(Option<u64>, Option<bool>) *)
+  SArray [(0, (false, SUInt 64)); (1, (true, SUInt 32)); (2, (true, SBytes)); (3, (true, SBool)); (4, (true, SVec (SUInt 16)))].
+(* #[cbor(flat)] enum FlatOpt: 0 A(u8, Option<i64>), 3 B, 5 C(Option<u64>, Option<bool>) *)
 Definition s_flat_opt : schema :=
-  SFlat [(0, [(false, SUInt 8); (true, SInt64)]); (3, []); (5, [(true, SUInt 64); (true, SBool)])].
-(* harness test struct Nested { #[n(0)] x: Vec<OptTail>, #[n(1)] y: Option<FlatOpt> } *)
-Definition s_nested : schema := SArray [(false, SVec s_opt_tail); (true, s_flat_opt)].
+  SFlat [(0, [(0, (false, SUInt 8)); (1, (true, SInt64))]); (3, []); (5, [(0, (true, SUInt 64)); (1, (true, SBool))])].
+(* struct Nested { #[n(0)] x: Vec<OptTail>, #[n(1)] y: Option<FlatOpt> } *)
+Definition s_nested : schema := SArray [(0, (false, SVec s_opt_tail)); (1, (true, s_flat_opt))].
+(* #[cbor(map)] struct MapOpt { #[n(0)] a: u64, #[n(2)] b: Option<u32>, #[n(5)] c: Option<Bytes>,
+                                #[n(9)] d: Vec<u16>, #[n(11)] e: Option<bool> } *)
+Definition s_map_opt : schema :=
+  SMap [(0, (false, SUInt 64)); (2, (true, SUInt 32)); (5, (true, SBytes)); (9, (false, SVec (SUInt 16))); (11, (true, SBool))].
 
-Definition schemas : list schema :=
-  [s_ex_units; s_vkey_witness; s_bootstrap_witness; s_redeemer_tag; s_redeemers_key; s_language;
-   s_stake_credential; s_drep; s_certificate_lite; s_opt_tail; s_flat_opt; s_nested].
-Definition schema_of (id : Z) : schema := nth (Z.to_nat id) schemas (SIndexOnly []).
-
-(* ---- #[cbor(map)] structs ---- *)
-(* babbage CostModels { #[n(0)] plutus_v1: Option<Vec<i64>>, #[n(1)] plutus_v2: Option<Vec<i64>> } *)
-Definition ms_cost_models : mschema := [(0, (true, SVec SInt64)); (1, (true, SVec SInt64))].
-(* harness test struct MapOpt #[cbor(map)] { #[n(0)] a: u64, #[n(2)] b: Option<u32>, #[n(5)] c: Option<Bytes>,
-                                             #[n(9)] d: Vec<u16>, #[n(11)] e: Option<bool> } *)
-Definition ms_map_opt : mschema :=
-  [(0, (false, SUInt 64)); (2, (true, SUInt 32)); (5, (true, SBytes)); (9, (false, SVec (SUInt 16))); (11, (true, SBool))].
-Definition mschemas : list mschema := [ms_cost_models; ms_map_opt].
-Definition mschema_of (id : Z) : mschema := nth (Z.to_nat id) mschemas [].
+Definition test_schemas : list (String.string * schema) :=
+  [("test::OptTail", s_opt_tail); ("test::FlatOpt", s_flat_opt); ("test::Nested", s_nested); ("test::MapOpt", s_map_opt)].
